@@ -71,6 +71,8 @@ def attr_plan(amode):
 
 
 def attr_feature(label):
+    if label == "repeated-member-names":
+        return label
     if label in FILE_FLAGS:
         return "file-entry-carries-general-purpose-flags"
     a = ATTR_BY_LABEL[label][2]
@@ -393,6 +395,17 @@ def _work_lattice(case):
                     ents.append(F.Entry(f"m{i + j}/" if d else f"m{i + j}", cd_file_size=f, cd_compress_size=c,
                                         ext_attr=None if amode is None else at, create_system=0 if amode is None else sy, flags=fl))
             i += k
+        if case.get("nmode") is not None and alabel == "default" and (case["nmode"] + vi) % 3 == 0 and len(infos) >= 2:
+            # repeated member names (what append-mode writers leave behind): every name occurs about twice, the records keep their own sizes.
+            # Every record of the central directory is an entry; the control twin is the same vector under unique names.
+            import copy
+            plain, h = list(infos), (len(infos) + 1) // 2
+            infos = [copy.copy(z) for z in infos]
+            for j, z in enumerate(infos):
+                z.filename = f"m{j % h}" + ("/" if z.filename.endswith("/") else "")
+            for j, e in enumerate(ents):
+                e.name = f"m{j % h}" + ("/" if e.name.endswith("/") else "")
+            alabel = "repeated-member-names"
         stub = _outcome(lambda: zb.validate_zipfile(_Stub(infos), limits=limits, source="c11"))
         twin = None                                   # control twin: the same vector without its directory entries
         if any(d for _, _, d, _ in runs):
@@ -526,6 +539,9 @@ def build_variant(base: bytes, v: dict, lim):
         extra = [F.deflated(P + f"z{i}.bin", b"\0" * (1 << 20) + noise, **akw) for i in range(24)]
     else:
         raise ValueError(name)
+    if v.get("dup"):
+        # the member name occurs twice: the offending record first, a small innocent record of the same name last
+        extra = extra + [F.stored(e.name, b"x") for e in extra[:2]]
     return F.append_entries(base, extra, front=front)
 
 
@@ -623,6 +639,7 @@ def flush_pending(run):
         prefix = "exceeds-" if kind == "wrong-accept" else "on-limit-"
         named = {"directory-entries": "directory-entries-present"}
         named.update({"attr:" + attr_feature(a[0]): attr_feature(a[0]) for a in FILE_ATTRS[1:]})
+        named["attr:repeated-member-names"] = "repeated-member-names"
         left = items
         while left:
             tally: dict = {}
@@ -654,7 +671,8 @@ def eval_lattice(run, case, obs, cells):
         atwin, alabel = (one[6], one[7]) if len(one) > 7 else (None, "default")
         entries = expand(runs)
         ref = ref_decide(entries, lim)
-        rep = {"kind": "lattice", "lim": lim, "vectors": [runs], "base": case["base"] + vi, "amode": None if case.get("amode") is None else case["amode"] + vi}
+        rep = {"kind": "lattice", "lim": lim, "vectors": [runs], "base": case["base"] + vi, "amode": None if case.get("amode") is None else case["amode"] + vi,
+               "nmode": None if case.get("nmode") is None else case["nmode"] + vi}
         for comp, got in (("validate_zipfile[ZipInfo-stub]", stub), ("validate_zip_bytesio[forged-zip]", real), ("open_zipfile[forged-zip]", opened)):
             if got is None:
                 continue
@@ -664,6 +682,8 @@ def eval_lattice(run, case, obs, cells):
                 run.count("decisions_compared_with_nondefault_file_attributes")
                 if ref == {True} and attr_feature(alabel) == "file-entry-carries-directory-attribute":
                     run.count("spec_rejects_although_file_entries_carry_a_directory_attribute")
+                if ref == {True} and alabel == "repeated-member-names":
+                    run.count("spec_rejects_containers_with_repeated_member_names")
                 if ref == {True} and alabel in FILE_FLAGS:
                     run.count("spec_rejects_although_file_entries_carry_general_purpose_flags")
                     if any((not d) and f > 0 and c == 0 for f, c, d in entries):
@@ -718,6 +738,8 @@ def eval_extract(run, case, obs, per):
     ref = ref_decide(entries, lim)
     benign = v["name"] in ("plain", "pad") and not v.get("attr")
     feature = "clean" if benign else ("bomb-shape-" if ref == {True} else "near-limit-") + v["name"] + ("+" + attr_feature(v["attr"]) if v.get("attr") else "")
+    if v.get("dup") and not benign:
+        feature += "+repeated-member-name"
     if case.get("reuse") and obs.get("reused") == "first-pass-ok":
         feature = ("clean" if benign else feature) + "+buffer-object-reused-after-a-legitimate-document"
         st["reused_buffer_runs"] = st.get("reused_buffer_runs", 0) + 1
@@ -762,7 +784,7 @@ def eval_extract(run, case, obs, per):
     run.extras.setdefault("rebound_bindings", obs["rebound"])
     run.extras.setdefault("configured_default_limits", lim)
     m = margins(entries, lim)
-    sig = ("extract", ext, bool(case.get("reuse")), v["name"], v.get("attr", "default"), v.get("d", 0), bool(v.get("front")), out if not out.startswith("exc:") else "exc",
+    sig = ("extract", ext, bool(case.get("reuse")), bool(v.get("dup")), v["name"], v.get("attr", "default"), v.get("d", 0), bool(v.get("front")), out if not out.startswith("exc:") else "exc",
            s["zips_seen"], s["zips_read"] > 0, tuple(sorted(ref)))
     run.case(sig, sample={"extractor": ext, "fixture": case.get("fixture"), "variant": v, "spec_rejects": sorted(ref), "outcome": out,
                           "zip_objects": s, "margins": m} if (v["name"] in ("eratio", "plain") and st["runs"] < 3 and ext in ("xlsx", "odt")) else None)
@@ -840,7 +862,7 @@ def lattice_cases(run):
         vectors = list(vectors)
         for i in range(0, len(vectors), chunk):
             cases.append({"kind": "lattice", "id": cid[0], "world": world, "lim": list(lim), "vectors": vectors[i:i + chunk],
-                          "base": rng.randrange(6), "real": real, "amode": rng.randrange(2 * 2 * (len(FILE_ATTRS) - 1))})
+                          "base": rng.randrange(6), "real": real, "amode": rng.randrange(2 * 2 * (len(FILE_ATTRS) - 1)), "nmode": rng.randrange(3)})
             cid[0] += 1
 
     for wi, lim in enumerate(SMALL_WORLDS):
@@ -871,6 +893,7 @@ VARIANTS_QUICK = [
     {"name": "single", "d": 1, "attr": "dos-directory-bit"}, {"name": "zero", "front": 1, "attr": "unix-S_IFDIR-mode"},
     {"name": "real-entry-ratio", "attr": "dos-directory+readonly+archive-bits"}, {"name": "pad", "attr": "dos-directory-bit"},
     {"name": "zero", "attr": "data-descriptor-flag"}, {"name": "eratio", "d": 1, "attr": "data-descriptor+compression-option-flags"},
+    {"name": "single", "d": 1, "dup": 1}, {"name": "real-entry-ratio", "dup": 1}, {"name": "zero", "dup": 1, "front": 1}, {"name": "total", "d": 1, "dup": 1},
     {"name": "real-entry-ratio", "attr": "encrypted-flag"}, {"name": "zero", "front": 1, "attr": "encrypted+data-descriptor-flags"}, {"name": "single", "d": 1, "attr": "encrypted-flag"},
 ]
 VARIANTS_ATTR = [{"name": nm, "d": 1, "attr": a[0]} for nm in ("single", "total", "eratio", "tratio", "zero") for a in FILE_ATTRS[1:]] + \
@@ -968,7 +991,7 @@ def main(run):
     for k, lo in (("decisions_on_reused_buffer", run.n(800, 8000)), ("spec_rejects_on_buffer_accepted_before", run.n(150, 1500)),
                   ("spec_rejects_only_by_entry_ratio_excess_below_0.05", run.n(15, 100)), ("spec_rejects_only_by_total_ratio_excess_below_0.05", run.n(15, 100)),
                   ("decisions_compared_with_nondefault_file_attributes", run.n(8000, 60000)), ("spec_rejects_although_file_entries_carry_a_directory_attribute", run.n(1500, 10000)),
-                  ("spec_rejects_although_file_entries_carry_general_purpose_flags", run.n(1000, 7000)), ("spec_rejects_zero_compressed_entries_with_data_descriptor_flag", run.n(150, 1000))):
+                  ("spec_rejects_containers_with_repeated_member_names", run.n(1500, 10000)), ("spec_rejects_although_file_entries_carry_general_purpose_flags", run.n(1000, 7000)), ("spec_rejects_zero_compressed_entries_with_data_descriptor_flag", run.n(150, 1000))):
         run.require(k, run.counters.get(k, 0), lo)
     for k in ("accept_from_zero", "accept_from_nonzero", "reject_from_zero", "reject_from_nonzero", "error_from_nonzero"):
         run.require("position_checked_on_" + k, run.counters.get("position_checked_on_" + k, 0), 4)
